@@ -123,14 +123,14 @@ void HARNESS(void) { VIN(vin_t);
   CANARY(); }'''
 
 
-def parse_uri_unit(name, nq, nt, extra, bound, thorough_only=False, timeout=(600, 3000)):
+def parse_uri_unit(name, nq, nt, extra, bound, thorough_only=False, timeout=(600, 3000), unwind=None):
     d = {'N': nq, 'PREALLOC': 0, 'C13_MEMCHR_MODEL': 1, 'C13_BSTR_MODEL': 1}
     d.update(extra)
     UNITS.append(U(
         name=name, props=['C13'], kind='bounded', src=['htp_util.c'], replay='vin',
         contracts_inc=['uri_ref.h', 'c13_uri.h'], harness=PARSE_URI_H,
         defs={'quick': d, 'thorough': {'N': nt}},
-        flags_add=['--unwind', str(max(nt, 8) + 3), '--unwinding-assertions', '--memory-leak-check'],
+        flags_add=['--unwind', str(unwind or (max(nt, 8) + 3)), '--unwinding-assertions', '--memory-leak-check'],
         flags_del=['--unsigned-overflow-check'], thorough_only=thorough_only, timeout=timeout,
         bound=bound % (nq, nt), assumes=AB,
         sub='real htp_parse_uri: components re-join to the target minus trailing spaces (ordered, contiguous, delimiter-separated, byte-identical); '
@@ -139,8 +139,136 @@ def parse_uri_unit(name, nq, nt, extra, bound, thorough_only=False, timeout=(600
 
 parse_uri_unit('ref_parse_uri', 8, 10, {},
                'all targets of length exactly N (quick N=%d, thorough N=%d) over all byte values; this includes every shorter target padded with trailing spaces, which the splitter strips first')
-parse_uri_unit('ref_parse_uri_short', 4, 6, {'ALL_LENGTHS': 1},
-               'all targets of every length 0..N (quick N=%d, thorough N=%d), each in a heap buffer of exactly that size (over-read detection at every length)')
+parse_uri_unit('ref_parse_uri_short', 3, 5, {'ALL_LENGTHS': 1}, unwind=10, bound='all targets of every length 0..N (quick N=%d, thorough N=%d), each in a heap buffer of exactly that size (over-read detection at every length)')
 parse_uri_unit('ref_parse_uri_prealloc', 6, 8, {'PREALLOC': 1},
                'caller-provided htp_uri_alloc() structure (the way htp_transaction.c calls it); targets of length exactly N (quick N=%d, thorough N=%d)', thorough_only=False)
-parse_uri_unit('tmp_ipv6_finding', 7, 8, {'C13_NO_KNOWN_IPV6': 1}, 'tmp %d %d')
+
+# ======================================================================================================
+# 2. bounded: the REAL htp_parse_hostport (+ real trim, lower-case, port parser, integer parser from bstr.c)
+# ======================================================================================================
+HOSTPORT_H = COMMON + r'''
+typedef struct { unsigned char a[N ? N : 1]; size_t la; int want_port; } vin_t;
+static void run(const unsigned char *a, size_t la, int want_port) {
+  bstr *input = mk_input(a, la);
+  if (input == NULL) return;
+  bstr *hostname = (bstr *) input, *port = NULL;      /* hostname: a non-NULL junk value that must be overwritten */
+  int port_number = 12345, invalid = 77;
+  htp_status_t rc = htp_parse_hostport(input, &hostname, want_port ? &port : NULL, &port_number, &invalid);
+  VASSERT(rc == HTP_OK || rc == HTP_ERROR, "htp_parse_hostport returns OK or ERROR");
+  INPUT_UNCHANGED(input, a, la);
+  if (rc == HTP_OK) {
+    comp_t h, p; comp_get(hostname, la, &h); comp_get(port, la, &p);
+    ref_hostport_t r; ref_hostport(a, la, &r);
+    /* --- partition, stated without the reference: ws* host ws* [ ':' port ] ws* is the input --- */
+    VASSERT(invalid == 0 || invalid == 1, "invalid is a boolean");
+    VASSERT(port_number == -1 || (port_number >= 1 && port_number <= 65535), "numeric port is 1..65535 or -1");
+    VASSERT(h.has || invalid == 1, "no host name => marked invalid");
+    VASSERT(!p.has || h.has, "port text only together with a host name");
+    size_t q = 0, oh = 0, op = 0;
+    while (q < la && ref_isspace(a[q])) q++;
+    if (h.has) {
+      oh = q; VASSERT(q + h.len <= la, "host lies inside the input"); q += h.len;
+      while (q < la && ref_isspace(a[q])) q++;
+      if (want_port ? p.has : (q < la && a[q] == ':')) {
+        VASSERT(q < la && a[q] == ':', "host and port are separated by ':' (white space before it ignored)"); q++;
+        if (p.has) { op = q; VASSERT(q + p.len <= la, "port lies inside the input"); q += p.len;
+                     while (q < la && ref_isspace(a[q])) q++;
+                     VASSERT(q == la, "white space, host, ':' and port text re-join to the input"); }
+      } else if (invalid == 0) VASSERT(q == la, "valid host without port: white space and host re-join to the input");
+      if (oh + h.len <= la) for (size_t i = 0; i < N; i++) if (i < h.len) VASSERT(ref_low(h.b[i]) == ref_low(a[oh + i]), "host bytes are the input's bytes (up to ASCII case)");
+      if (p.has && op + p.len <= la) for (size_t i = 0; i < N; i++) if (i < p.len) VASSERT(p.b[i] == a[op + i], "port bytes are the input's bytes");
+    }
+    /* --- port rule (statement): decimal value when in 1..65535, otherwise -1 and marked invalid --- */
+    if (p.has) {
+      int v = ref_port_number(p.b, p.len);
+      VASSERT(port_number == v, "numeric port is the decimal value of the reported port text when in 1..65535, else -1");
+      VASSERT(v != -1 || invalid == 1, "unusable port text is marked invalid");
+    }
+    /* --- equality with the reference --- */
+    VASSERT(h.has == r.has_host && (!want_port || p.has == r.has_port), "host / port reported iff the reference reports them");
+    VASSERT(port_number == r.port_number, "numeric port equals the reference");
+    VASSERT(invalid == r.invalid, "invalid flag equals the reference");
+    if (h.has && r.has_host) {
+      VASSERT(h.len == r.host_len && oh == r.host_off, "host range equals the reference");
+      if (h.len == r.host_len) for (size_t i = 0; i < N; i++) if (i < h.len)
+        VASSERT(h.b[i] == (r.host_lowered ? ref_low(a[r.host_off + i]) : a[r.host_off + i]), "host bytes equal the reference (lower-cased only when there is no port)");
+    }
+    if (p.has && r.has_port) VASSERT(p.len == r.port_len && op == r.port_off, "port range equals the reference");
+    bstr_free(hostname); bstr_free(port);
+  }
+  free(input);
+}
+#define CASE(K) if (in.la == (K)) run(in.a, (K), in.want_port);
+void HARNESS(void) { VIN(vin_t);
+#ifdef ALL_LENGTHS
+  VASSUME(in.la <= N);
+''' + CASES + r'''#else
+  VASSUME(in.la == N);      /* shorter inputs = this one padded with white space, which is trimmed first */
+  run(in.a, N, in.want_port);
+#endif
+  CANARY(); }'''
+
+AH = ['bounded: host[:port] texts of length <= N over all byte values', 'every allocation may fail (--malloc-may-fail)',
+      'real bstr.c linked (trim, lower-case, dup, integer parser); memchr: textbook model (CBMC 6.11 has none)',
+      'on HTP_ERROR the out-parameters are not inspected (see notes/c13.md: *hostname is left dangling after a failed port allocation)']
+
+
+def hostport_unit(name, nq, nt, extra, bound, unwind, timeout=(600, 3000), **kw):
+    d = {'N': nq, 'C13_MEMCHR_MODEL': 1}
+    d.update(extra)
+    UNITS.append(U(
+        name=name, props=['C13'], kind='bounded', src=['htp_util.c'], link=['bstr.c'], replay='vin',
+        contracts_inc=['uri_ref.h', 'c13_uri.h'], harness=HOSTPORT_H,
+        defs={'quick': d, 'thorough': {'N': nt}},
+        flags_add=['--unwind', str(unwind), '--unwinding-assertions', '--memory-leak-check'],
+        flags_del=['--unsigned-overflow-check'], timeout=timeout, bound=bound % (nq, nt), assumes=AH,
+        sub='real htp_parse_hostport: white space, host, ":" and port text re-join to the input; host/port ranges, lower-casing, invalid flag and numeric port '
+            '(decimal value in 1..65535, else -1 and invalid) equal the independent reference; port==NULL call form included; no leak / over-read under any allocation failure', **kw))
+
+
+hostport_unit('ref_parse_hostport', 7, 8, {}, 'all inputs of length exactly N (quick N=%d, thorough N=%d); shorter ones are covered as white-space padded inputs', 12)
+hostport_unit('ref_parse_hostport_short', 3, 5, {'ALL_LENGTHS': 1}, 'all inputs of every length 0..N (quick N=%d, thorough N=%d), each in a heap buffer of exactly that size', 9)
+
+# ======================================================================================================
+# 3. bounded: the port rule through the REAL htp_normalize_parsed_uri (port block) on a uri that carries only a port text
+# ======================================================================================================
+PORT_H = COMMON + r'''
+typedef struct { unsigned char a[N ? N : 1]; size_t la; uint64_t flags; int has_port; } vin_t;
+static htp_tx_t the_tx;
+static void run(const unsigned char *a, size_t la, uint64_t flags, int has_port) {
+  htp_uri_t inc; memset(&inc, 0, sizeof(inc));
+  htp_uri_t *norm = htp_uri_alloc();
+  bstr *pt = has_port ? mk_input(a, la) : NULL;
+  if (norm != NULL && (!has_port || pt != NULL)) {
+    inc.port = pt; inc.port_number = 4711;
+    the_tx.flags = flags;
+    norm->port_number = 4242;
+    int rc = htp_normalize_parsed_uri(&the_tx, &inc, norm);
+    VASSERT(rc == HTP_OK, "normalising a uri that has only a port text cannot fail");
+    if (!has_port) {
+      VASSERT(norm->port_number == -1 && the_tx.flags == flags, "no port text: numeric port is -1 (HTP_PORT_NONE), nothing flagged");
+    } else {
+      INPUT_UNCHANGED(pt, a, la);
+      int v = ref_port_number(a, la);
+      if (v != -1) VASSERT(norm->port_number == v && the_tx.flags == flags, "port text in 1..65535: numeric port is its decimal value, nothing flagged");
+      else VASSERT(norm->port_number == -1 && the_tx.flags == (flags | HTP_HOSTU_INVALID), "any other port text: numeric port -1 and the transaction is flagged HTP_HOSTU_INVALID (only that flag added)");
+    }
+    VASSERT(!norm->scheme && !norm->username && !norm->password && !norm->hostname && !norm->port && !norm->path && !norm->query && !norm->fragment, "no component invented");
+  }
+  htp_uri_free(norm); free(pt);
+}
+#define CASE(K) if (in.la == (K)) run(in.a, (K), in.flags, in.has_port);
+void HARNESS(void) { VIN(vin_t);
+  VASSUME(in.la <= N);
+''' + CASES + r'''  CANARY(); }'''
+
+UNITS.append(U(
+    name='ref_normalize_port', props=['C13'], kind='bounded', src=['htp_util.c'], link=['bstr.c'], replay='vin',
+    contracts_inc=['uri_ref.h', 'c13_uri.h'], harness=PORT_H, defs={'quick': {'N': 6, 'C13_MEMCHR_MODEL': 1}, 'thorough': {'N': 7}},
+    flags_add=['--unwind', '10', '--unwinding-assertions', '--memory-leak-check'], flags_del=['--unsigned-overflow-check'], timeout=(600, 3000),
+    bound='all port texts of every length 0..N (quick N=6, thorough N=7) over all byte values, arbitrary prior tx->flags',
+    assumes=['bounded: port texts of length <= N (N >= 6 covers 65535/65536 with a leading zero or blank)',
+             'htp_normalize_parsed_uri is called on a uri whose only non-NULL component is the port text, so the other stages (which need cfg) are not exercised: '
+             'the port block does not depend on them', 'real bstr_util_mem_to_pint / htp_parse_positive_integer_whitespace (bstr.c linked)'],
+    sub='port rule through the real htp_normalize_parsed_uri: port text (LWS* digits LWS*) in 1..65535 => port_number = decimal value; anything else => -1 and HTP_HOSTU_INVALID; '
+        'no port text => -1; no other flag touched'))
